@@ -146,7 +146,20 @@ def gen(tier, seed, info):
         if rnd.random() < 0.3:
             evs += ["MS 1 %d %d %d" % (b, pl, pc), "MS 2 %d %d %d" % ((b,) + pos()), "MS 3 %d %d %d" % ((b,) + pos())]
         victim = rnd.randint(1, depth)
-        if rnd.random() < 0.6:
+        r = rnd.random()
+        if rnd.random() < 0.3:
+            # a window of the chain (the source, one above it, one inside it) is moved during the gesture: the
+            # source's events are relative to where it is when they are sent
+            at = rnd.randint(2, len(evs) - 1)
+            evs.insert(at, "MV %d %d %d 0" % (rnd.randint(1, depth), rnd.randint(0, 2), rnd.randint(0, 3)))
+        if r < 0.25:
+            # a window of the chain is hidden during the gesture (and perhaps shown again): nothing goes to a
+            # source that is hidden or below a hidden window
+            at = rnd.randint(2, len(evs) - 1)
+            evs.insert(at, "H %d" % victim)
+            if rnd.random() < 0.4 and at + 2 < len(evs):
+                evs.insert(rnd.randint(at + 2, len(evs) - 1), "S %d" % victim)
+        elif r < 0.7:
             at = rnd.randint(2, len(evs) - 1)      # between two events, after the drag began
             evs.insert(at, "X %d" % victim)
         else:
